@@ -139,11 +139,11 @@ def run(ctx):
 
     # 1. model checking + behaviour emission
     if quick:
-        covers = [{"MaxReq": "2", "KCover": "1", "Statuses": "{200}", "JailChoices": "{FALSE}", "DefinedChoices": "SomeAbsent"}]
+        covers = [{"MaxReq": "2", "KCover": "1", "Statuses": "{200}", "JailChoices": '{"no"}', "DefinedChoices": "SomeAbsent"}]
     else:
-        covers = [{"MaxReq": "3", "KCover": "2", "Statuses": "{200, 500}", "JailChoices": "{FALSE}"},
-                  {"MaxReq": "3", "KCover": "1", "Statuses": "{200}", "JailChoices": "{FALSE, TRUE}"},
-                  {"MaxReq": "2", "KCover": "2", "Statuses": "{200}", "JailChoices": "{FALSE}", "DefinedChoices": "SomeAbsent"}]
+        covers = [{"MaxReq": "3", "KCover": "2", "Statuses": "{200, 500}", "JailChoices": '{"no"}'},
+                  {"MaxReq": "3", "KCover": "1", "Statuses": "{200}", "JailChoices": '{"no", "long"}'},
+                  {"MaxReq": "2", "KCover": "2", "Statuses": "{200}", "JailChoices": '{"no"}', "DefinedChoices": "SomeAbsent"}]
     beh_files = []
     for defs in covers:
         m = ctx.tlc("Lifecycle", defines=defs, timeout=1500, tag="cover")
@@ -151,9 +151,20 @@ def run(ctx):
             raise MachineryFault("Lifecycle.tla: mechanism layer violates requirement layer on the model: %s "
                                  "(a lead, not a verdict - see tlc output)" % m.violated)
         beh_files.append(m.beh_path)
+    # timed histories (real time passes between requests; the replayer sleeps): object lifetimes and the penalty box
+    for cfg in ("LifecycleTimedObj.cfg", "LifecycleTimedJail.cfg"):
+        tm = ctx.tlc("Lifecycle", cfg=cfg, timeout=900, tag="timed:" + cfg)
+        if tm.violated:
+            raise MachineryFault("Lifecycle.tla (%s) violates %s on the model" % (cfg, tm.violated))
+        lines = open(tm.beh_path).readlines()
+        if quick and len(lines) > 160:
+            lines = ctx.rng.sample(lines, 160)
+        tp = os.path.join(ctx.work, "timed_" + cfg + ".jsonl")
+        open(tp, "w").writelines(lines)
+        beh_files.append(tp)
     # seeded simulation for depth beyond the cover
     sim = ctx.tlc("Lifecycle", cfg="LifecycleSim.cfg", simulate=(400 if quick else 6000), depth=60,
-                  defines={"MaxReq": "3", "KCover": "0", "Statuses": "{200, 500}", "JailChoices": "{FALSE, TRUE}",
+                  defines={"MaxReq": "3", "KCover": "0", "Statuses": "{200, 500}", "JailChoices": '{"no", "long"}',
                            "DefinedChoices": "SomeAbsent"},
                   timeout=900, tag="simulate")
     beh_files.append(sim.beh_path)
